@@ -86,6 +86,12 @@ func checkC12(c *Ctx, r *Report) {
 	r.floor("R12.2", 2)
 	r.floor("R12.3", 2)
 	crc := c.fnMust("packet", "CRC16")
+	// R12.9: what is CRC-checked is what was received: the read loop counts every byte a Read
+	// delivered (also one that came together with a tolerated error) and hands on received[0:total]
+	// (C07 R7.2); bytes dropped from the middle can turn a corrupted stream into a frame that verifies
+	clientLoopItems(c, r, "R7.2", "R12.9", "advances by exactly the count")
+	clientLoopItems(c, r, "R7.2", "R12.9", "the frame handed on is a copy of received[0:total]")
+	r.floor("R12.9", 4)
 	// R12.8: the verdict on a reply depends on the reply alone: nothing on the request path of either
 	// client keeps package-level state (a checksum table filled lazily would be shared by all clients)
 	sharedStateRule(c, r, "R12.8", "modbus client request path", "the request path of both clients (send, read loop, CRC verification, parsing)",
